@@ -5,6 +5,7 @@ Model/Block.lean; time is an explicit, monotone `now`.  Heap reclamation itself
 is observed by the harness (counting allocator), not proved: the theorems show
 removal from the cache.
 -/
+import CoapLite.Lemmas.Shape.Api
 import CoapLite.Lemmas.BlockTrace
 import CoapLite.Lemmas.Shape.Block
 import CoapLite.Lemmas.Shape.BlockValue
@@ -93,5 +94,12 @@ theorem state_shape_matches_source :
     Shapes.header = [("code", "MessageClass"), ("message_id", "u16"), ("ver_type_tkl", "u8")] ∧
     Shapes.headerRaw = [("code", "u8"), ("message_id", "u16"), ("ver_type_tkl", "u8")] :=
   ⟨ShapeTie.no_global_state, ShapeTie.blockHandler, ShapeTie.blockHandlerConfig, ShapeTie.requestCacheKey, ShapeTie.blockState, ShapeTie.blockValue, ShapeTie.coapRequest, ShapeTie.coapResponse, ShapeTie.packet, ShapeTie.header, ShapeTie.headerRaw⟩
+
+/-- the public entry points of the modelled source files – re-read from /repo/src on every run – are
+exactly the ones the model was written against (`Lemmas/Shape/Api.lean`): a new public way to change the
+state this property is about, or a receiver that became `&mut self`, breaks this theorem -/
+theorem api_surface_matches_source :
+    Shapes.apiBlockHandler = ShapeTie.expectedApiBlockHandler :=
+  ShapeTie.apiBlockHandler
 
 end CoapLite.C20
